@@ -542,6 +542,58 @@ fn oracle_hull(c: &Case) -> Verdict {
     Verdict::pass_l(c.distinct() >= 3, labels)
 }
 
+
+/// Power-of-two scaling sub-check. Lattice points with |c| <= 20 are scaled by
+/// 2^exp (exact in f32, and all coordinate differences stay exact), so the hull
+/// of the scaled points must be the scaled hull of the lattice points. The
+/// returned hull is unscaled (exact) and judged by the strict integer oracle.
+/// Reaches magnitudes (1e-29 .. 9e19) where squared f32 distances underflow or
+/// overflow although every coordinate is an ordinary finite f32.
+#[derive(Clone, Debug, Serialize, Deserialize)]
+struct Pow2Case {
+    pts: Vec<(i16, i16)>,
+    exp: i8,
+}
+
+const POW2_EXPS: [i8; 12] = [-100, -90, -80, -76, -70, -40, 0, 40, 56, 60, 62, 64];
+
+fn oracle_hull_pow2(c: &Pow2Case) -> Verdict {
+    vc_imageproc::own_panics_only();
+    let s = (c.exp as f32).exp2();
+    let lat: Vec<(i16, i16)> = c.pts.iter().map(|&(x, y)| (x.clamp(-20, 20), y.clamp(-20, 20))).collect();
+    let scaled: Vec<PointF> = lat.iter().map(|&(x, y)| PointF::from_yx(y as f32 * s, x as f32 * s)).collect();
+    let hull = convex_hull(&scaled);
+    let inv = 1.0 / s; // exact: s is a power of two
+    let unscaled_hull: Vec<PointF> = hull.iter().map(|q| PointF::from_yx(q.y * inv, q.x * inv)).collect();
+    let base = Case { class: 0, pts: lat, xf: 0, eps_q: 0 };
+    let pts = base.points();
+    let sc = scale_of(&pts);
+    let mut labels: Vec<&'static str> = vec!["pow2-scale", "strict-oracle"];
+    labels.push(if c.exp >= 56 { "squares-overflow-f32" } else if c.exp <= -70 { "squares-underflow-f32" } else { "squares-normal" });
+    if let Err((sig, d)) = check_hull(&base, &pts, &unscaled_hull, &sc, &mut labels) {
+        return Verdict::fail(format!("{sig}@pow2-scale"), format!("scale 2^{}: {d}", c.exp));
+    }
+    Verdict::pass_l(base.distinct() >= 3, labels)
+}
+
+fn pow2_case() -> impl Strategy<Value = Pow2Case> {
+    let uniform = prop::collection::vec(((-20i16..=20), (-20i16..=20)), 0..=16);
+    let small = prop::collection::vec(((-3i16..=3), (-3i16..=3)), 0..=16);
+    // points on a few rays from a common lowest point, in generated order (so a farther point may precede a nearer one)
+    let rays = (prop::collection::vec(((-3i16..=3), (-3i16..=0), 1i16..=6), 1..=10), prop::collection::vec(((-20i16..=20), (-20i16..=20)), 0..=2), any::<bool>()).prop_map(
+        |(r, extra, with_origin)| {
+            let mut v: Vec<(i16, i16)> = r.iter().map(|&(dx, dy, k)| (dx * k, dy * k)).collect();
+            if with_origin {
+                v.insert(0, (0, 0));
+            }
+            v.extend(extra);
+            v
+        },
+    );
+    let pts = prop_oneof![2 => uniform, 2 => small, 4 => rays];
+    (pts, 0usize..POW2_EXPS.len()).prop_map(|(pts, e)| Pow2Case { pts, exp: POW2_EXPS[e] })
+}
+
 fn oracle_rect(c: &Case) -> Verdict {
     vc_imageproc::own_panics_only();
     let pts = c.points();
@@ -707,7 +759,7 @@ fn main() {
          lattice, random walk, uniform |c|<=20000, rectangle border in contour order with displaced points; a transform \
          p = lattice*scale+offset in f32 from {1, 1e-6, 1e6, 0.1, 1+(1e4,-1e4), 1+(1e6,1e6), 1e-3+(1,1)}; epsilon = q/1000*diameter, \
          q in {0, 1..5, 0..1200}). Sub-check `hull-subsets` enumerates every subset of a 4x4 (quick) / 5x5 (thorough) integer \
-         grid. Each sub-check applies the validity predicates of one function family to the case. Strict (exact integer) oracle \
+         grid. Sub-check `hull-pow2-scale`: 0..=16 lattice points with |c|<=20 (uniform, |c|<=3, or multiples along rays from a common lowest point in generated order) scaled exactly by 2^e, e in {-100..64}, so squared f32 distances under/overflow; the hull is unscaled exactly and judged by the strict integer oracle. Each sub-check applies the validity predicates of one function family to the case. Strict (exact integer) oracle \
          when the transform is the identity and |c|<=20, tolerant f64 oracle otherwise. Non-trivial = at least 3 distinct points. \
          Distinct = distinct Debug rendering of the case.",
     );
@@ -721,6 +773,7 @@ fn main() {
     // not a plausible outcome of hull / rectangle cases, and there are many
     ck.set_slots(false);
     ck.prop("hull", n, case, oracle_hull);
+    ck.prop("hull-pow2-scale", n / 5, pow2_case, oracle_hull_pow2);
     ck.prop("min-area-rect", n, case, oracle_rect);
     // simplify_polyline is recursive: keep crash attribution (stack overflow)
     ck.set_slots(true);
